@@ -78,6 +78,9 @@ func routeInputs() []inputStmt {
 		{"query2-one-assignment", "qa, qb := c.QueryParam(\"qa\"), c.QueryParam(\"q-b\")\n\t_, _ = qa, qb", func(r *Route) {
 			r.Query = append(r.Query, RouteParam{"qa", "string"}, RouteParam{"q-b", "string"})
 		}},
+		{"query2-typed-one-assignment", "act, pg := ct.QueryParamBool(c, \"active\"), ct.QueryParamInt64(c, \"page\")\n\t_, _ = act, pg", func(r *Route) {
+			r.Query = append(r.Query, RouteParam{"active", "bool"}, RouteParam{"page", "int64"})
+		}},
 		{"query-bool", "flag := ct.QueryParamBool(c, \"flag\")\n\t_ = flag", q("flag", "bool")},
 		{"query-int64", "num := ct.QueryParamInt64(c, \"num\")\n\t_ = num", q("num", "int64")},
 		{"query-generic", "gid, errG := QueryParamInt[IdDossier](c, \"gid\")\n\t_, _ = gid, errG", q("gid", "IdDossier")},
@@ -161,6 +164,9 @@ func Routes(c explore.Chooser) *prog.Program {
 	if earlyReply == "yes" {
 		// the handler already replies (with the type of its last reply) in a branch, before reading its inputs
 		body = append(body, "var okEarly bool\n\tif okEarly {\n\t\t"+strings.ReplaceAll(ret.code, "\n\t", "\n\t\t")+"\n\t}")
+		// ... and one input is always read after that reply
+		body = append(body, "qAfter := c.QueryParam(\"after-reply\")\n\t_ = qAfter")
+		r0.Query = append(r0.Query, RouteParam{"after-reply", "string"})
 	}
 	for _, in := range chosen {
 		if seen[in.label] {
